@@ -72,8 +72,9 @@ def write_pretree_lens(bw, rng, newlens, oldlens, first, last):
         elif s==19:
             bw.bits(e,1); c2,l2=pc[z]; bw.bits(c2,l2)
 
-def encode(rng, wbits, total, delta=False, ref=b'', e8=False, reset_interval=0, cuts=None, match_p=0.5, early=False, btypes=None):
-    """returns (stream bytes, plaintext before E8 postprocessing is irrelevant: we only diff decoders)"""
+def encode(rng, wbits, total, delta=False, ref=b'', e8=False, reset_interval=0, cuts=None, match_p=0.5, early=False, btypes=None, first_match=None):
+    """first_match=(offset, length): the first token of the stream is this match (LZX DELTA: it starts in the reference data).
+    returns (stream bytes, plaintext before E8 postprocessing is irrelevant: we only diff decoders)"""
     wsize=1<<wbits; nslots=SLOTS[wbits-15]; nmain=256+nslots*8
     bw=BitW(); data=bytearray(); R=[1,1,1]; hostile_done=False
     # Intel E8 translation leaves the last 10 bytes of a frame alone: put CALL opcodes with small operands right around that limit
@@ -109,6 +110,8 @@ def encode(rng, wbits, total, delta=False, ref=b'', e8=False, reset_interval=0, 
             rb=(pos//(32768*reset_interval))*32768*reset_interval; bsize=min(bsize, rb+32768*reset_interval-pos)
         else: rb=0
         btype=rng.choice(btypes or [1,1,2,2,3])
+        if first_match and pos==0 and total>=2:
+            bsize=min(total, max(bsize, first_match[1])); btype=rng.choice([b for b in (btypes or [1,2]) if b!=3] or [1])
         # pre-generate tokens for this block so that trees cover the used symbols
         toks=[]; p=pos; bend=pos+bsize; r=list(R)
         if btype==3:
@@ -118,6 +121,9 @@ def encode(rng, wbits, total, delta=False, ref=b'', e8=False, reset_interval=0, 
                 fe=(p//32768+1)*32768; lim=min(bend,fe,total)
                 maxoff=min(p+len(ref) if delta else p-rb, wsize-3)
                 if early and p<6: maxoff=min(maxoff+rng.choice([1,2]), wsize-3)     # hostile: a match reaching before the first byte of the stream
+                if first_match and p==0 and lim-p>=2 and 1<=first_match[0]<=maxoff:
+                    off=first_match[0]; ml=max(2,min(first_match[1],257,lim-p)); fo=off+2; slot=max(i for i in range(nslots) if POSBASE[i]<=fo)
+                    r=[off,r[0],r[1]]; toks.append(('M',ml,off,slot)); p+=ml; continue
                 if p in forced:
                     toks.append(('L',forced[p])); p+=1; continue
                 nf=next((q for q in fpos if q>p), None)
